@@ -96,6 +96,12 @@ func genReuseCase(t *rapid.T, prop string) *Case {
 			op.Take = rapid.IntRange(1, 4).Draw(t, "take")
 			op.Restart = rapid.IntRange(0, 4).Draw(t, "restart") == 0
 			op.Slot = rapid.IntRange(0, 1).Draw(t, "slot")
+			// a new enumeration is restricted to a key range [term a, term b) of the
+			// field's terms in two cases out of three (Term/Doc select a and b)
+			if rapid.IntRange(0, 2).Draw(t, "ranged") != 0 {
+				op.Term = 1 + rapid.IntRange(0, 12).Draw(t, "range-a")
+				op.Doc = rapid.IntRange(0, 12).Draw(t, "range-len")
+			}
 		case 4:
 			op.PrePL = rapid.IntRange(1, 8).Draw(t, "which")
 			op.PreIt = rapid.IntRange(0, 8).Draw(t, "preit")
@@ -127,8 +133,10 @@ type dictKey struct {
 }
 
 type openDictIter struct {
-	it  segment.DictionaryIterator
-	pos int
+	it   segment.DictionaryIterator
+	pos  int
+	all  []model.TermObs // what this enumeration must deliver (the field's terms, or a key range of them)
+	desc string
 }
 
 func runReuseCase(c *Case, env *Env) *Result {
@@ -340,7 +348,32 @@ func runReuseCase(c *Case, env *Env) *Result {
 				ikey := dictKey{ws.Idx, field, op.Slot}
 				odi := dictIts[ikey]
 				if odi == nil || op.Restart {
-					odi = &openDictIter{it: dict.Iterator(nil, nil, nil)}
+					all := exp.Dicts[field]
+					odi = &openDictIter{all: all}
+					if op.Term > 0 && len(all) > 0 {
+						a := (op.Term - 1) % len(all)
+						b := a + op.Doc%(len(all)-a+1)
+						start := append([]byte(nil), all[a].Term...)
+						var end []byte
+						if b < len(all) {
+							end = append([]byte(nil), all[b].Term...)
+						}
+						if a != b || end == nil {
+							odi.all = all[a:b]
+							if end == nil {
+								odi.all = all[a:]
+							}
+							odi.desc = fmt.Sprintf(" over the key range [%q,%q)", string(start), string(end))
+							// (start and end stay untouched while the enumeration is open: the
+							// FST iterator refers to the caller's slices, which the interface
+							// does not forbid)
+							odi.it = dict.Iterator(nil, start, end)
+							res.probe("dictionary-enumeration-over-a-key-range")
+						}
+					}
+					if odi.it == nil {
+						odi.it = dict.Iterator(nil, nil, nil)
+					}
 					dictIts[ikey] = odi
 					otherSince[ikey] = false
 					if dictIts[dictKey{ws.Idx, field, 1 - op.Slot}] != nil {
@@ -351,8 +384,8 @@ func runReuseCase(c *Case, env *Env) *Result {
 					res.probe("dictionary-iterator-continued-after-other-lookups")
 					res.NonTrivial = true
 				}
-				all := exp.Dicts[field]
-				where += fmt.Sprintf(" dictionary iterator %q from entry %d", field, odi.pos)
+				all := odi.all
+				where += fmt.Sprintf(" dictionary iterator %q%s from entry %d", field, odi.desc, odi.pos)
 				for s := 0; s < op.Take; s++ {
 					e, err := odi.it.Next()
 					if err != nil {
